@@ -93,28 +93,8 @@ func (c05Driver) Generate(t *tape.Tape, tier string) core.Case {
 	c.Scenario = g.S
 	c.Injected = g.Injected
 	// order trap: an older revision of one module is part of the set as well
-	if rt := t.Sub("revisions"); rt.Chance(1, 6) {
-		var cand []*model.Mod
-		for _, m := range g.S.Mods {
-			if !m.IsSub() && len(m.Includes) == 0 && len(m.Deviations) == 0 {
-				cand = append(cand, m)
-			}
-		}
-		if len(cand) > 0 {
-			m := cand[rt.Intn(len(cand))]
-			m.Revs = []string{"2021-05-05"}
-			b, _ := json.Marshal(m)
-			older := &model.Mod{}
-			json.Unmarshal(b, older)
-			older.Revs = []string{"2019-03-03"}
-			older.Augments = nil
-			older.Body = append(older.Body, &model.Node{Kind: model.KLeaf, Name: "only-in-older-revision", Type: &model.Type{Ref: model.Ref{Name: "string"}}})
-			if len(older.Identities) > 0 && rt.Chance(1, 2) {
-				older.Identities = older.Identities[:len(older.Identities)-1]
-			}
-			g.S.Mods = append(g.S.Mods, older)
-			c.Injected = append(c.Injected, "two-revisions-of-"+m.Name)
-		}
+	if name := addOlderRevision(t.Sub("revisions"), g.S, 6); name != "" {
+		c.Injected = append(c.Injected, "two-revisions-of-"+name)
 	}
 	ot := t.Sub("options")
 	c.Options.StoreUses = ot.Chance(1, 4)
